@@ -135,6 +135,20 @@ class Tools:
     def mod(self, lines):
         return run_sharded(self.model, lines)
 
+    def whole(self, lines):
+        """whole programs with imports: DDPPATH points at the tree's Duden"""
+        env = dict(os.environ, DDPPATH=os.path.join(vlib.REPO, "lib", "stdlib"))
+        n = vlib.NCPU
+        size = max(1, (len(lines) + n - 1) // n)
+        chunks = [lines[i:i + size] for i in range(0, len(lines), size)]
+
+        def one(ch):
+            p = subprocess.run([self.litx], input=("\n".join(ch) + "\n").encode(), capture_output=True, timeout=1200, env=env)
+            if p.returncode != 0:
+                raise RuntimeError("litx failed: %s" % p.stderr.decode(errors="replace")[-2000:])
+            return p.stdout.decode().splitlines()[1:]
+        return [l for o in vlib.pmap(one, chunks) for l in o]
+
 
 def parse_P(line):
     """'P <n> <codes> items...' -> (n, [codes], [items]) ; None for PANIC/ERR"""
@@ -559,6 +573,172 @@ class InfraError(Exception):
     pass
 
 
+# ---- every literal class in every syntactic position ----------------------------------------------------
+TY = {
+    "Z": dict(decl="Die Zahl %s ist %s.", typ="Zahl", ret="eine Zahl", lst="Die Zahlen Liste %s ist eine Liste, die aus %s, %s besteht.", fill="7", zero="0"),
+    "K": dict(decl="Die Kommazahl %s ist %s.", typ="Kommazahl", ret="eine Kommazahl", lst="Die Kommazahlen Liste %s ist eine Liste, die aus %s, %s besteht.", fill="2,5", zero="0,0"),
+    "T": dict(decl="Der Text %s ist %s.", typ="Text", ret="einen Text", lst="Die Text Liste %s ist eine Liste, die aus %s, %s besteht.", fill='"f"', zero='""'),
+    "B": dict(decl="Der Buchstabe %s ist %s.", typ="Buchstabe", ret="einen Buchstaben", lst="Die Buchstaben Liste %s ist eine Liste, die aus %s, %s besteht.", fill="'f'", zero=None),
+}
+
+
+def prelude(ty):
+    t = TY[ty]
+    return ('Binde "Duden/Ausgabe" ein.\n'
+            "Die Funktion idf mit dem Parameter p vom Typ %(typ)s, gibt %(ret)s zurück, macht:\n\tGib p zurück.\nUnd kann so benutzt werden:\n\t\"idf <p>\"\n"
+            "Die Funktion zweif mit den Parametern a und p vom Typ %(typ)s und %(typ)s, gibt %(ret)s zurück, macht:\n\tGib p zurück.\nUnd kann so benutzt werden:\n\t\"zweif <a> und <p>\"\n"
+            "Die generische Funktion gid mit dem Parameter p vom Typ T, gibt ein T zurück, macht:\n\tGib p zurück.\nUnd kann so benutzt werden:\n\t\"gid <p>\"\n") % t
+
+
+def positions(ty):
+    """name -> (L -> program text after the prelude,
+                'x' if variable x holds the literal's value / '' if the statement prints it itself / None if nothing is printed,
+                is the literal node visible in the main module's AST)"""
+    t = TY[ty]
+    F = t["fill"]
+
+    def d(e):
+        return t["decl"] % ("x", e)
+    ps = {
+        "initialiser": (lambda L: d(L), "x", True),
+        "bare argument of a Duden alias": (lambda L: "Schreibe %s." % L, "", True),
+        "bare argument of a Duden alias (auf eine Zeile)": (lambda L: "Schreibe %s auf eine Zeile." % L, None, True),
+        "bare argument of a user alias": (lambda L: d("idf %s" % L), "x", True),
+        "parenthesised argument of a Duden alias": (lambda L: "Schreibe (%s)." % L, "", True),
+        "parenthesised argument of a user alias": (lambda L: d("idf (%s)" % L), "x", True),
+        "second argument of a user alias": (lambda L: d("zweif %s und %s" % (F, L)), "x", True),
+        "list literal element": (lambda L: (t["lst"] % ("l", F, L)) + "\n" + d("l an der Stelle 2"), "x", True),
+        "falls operand (then)": (lambda L: d("%s, falls wahr, ansonsten %s" % (L, F)), "x", True),
+        "falls operand (else)": (lambda L: d("%s, falls falsch, ansonsten %s" % (F, L)), "x", True),
+        "return value": (lambda L: "Die Funktion rr gibt %s zurück, macht:\n\tGib %s zurück.\nUnd kann so benutzt werden:\n\t\"rr\"\n" % (t["ret"], L) + d("rr"), "x", True),
+        "assigned value": (lambda L: d(F) + "\nSpeichere %s in x." % L, "x", True),
+        "condition operand": (lambda L: "Wenn %s gleich %s ist, dann:\n\tSchreibe 1.\n" % (L, F), None, True),
+        "comparison operand": (lambda L: "Der Wahrheitswert w ist %s ungleich %s ist." % (F, L), None, True),
+        "argument of a generic function": (lambda L: d("gid %s" % L), "x", True),
+        "body of a generic function": (lambda L: "Die generische Funktion gk mit dem Parameter q vom Typ T, gibt %s zurück, macht:\n\tGib %s zurück.\nUnd kann so benutzt werden:\n\t\"gk <q>\"\n" % (t["ret"], L) + d("gk 1"), "x", False),
+    }
+    if ty in ("Z", "K"):
+        ps["left operand of plus"] = (lambda L: d("%s plus %s" % (L, t["zero"])), "x", True)
+        ps["right operand of plus"] = (lambda L: d("%s plus %s" % (t["zero"], L)), "x", True)
+        ps["loop end"] = (lambda L: "Für jede %s i von %s bis %s, mache:\n\tSchreibe 1.\n" % (t["typ"], t["zero"], L), None, True)
+        ps["loop start"] = (lambda L: "Für jede %s i von %s bis %s, mache:\n\tSchreibe 1.\n" % (t["typ"], L, t["zero"]), None, True)
+        ps["loop step"] = (lambda L: "Für jede %s i von %s bis %s mit Schrittgröße %s, mache:\n\tSchreibe 1.\n" % (t["typ"], t["zero"], t["zero"], L), None, True)
+    if ty == "Z":
+        ps["repeat count"] = (lambda L: "Wiederhole:\n\tSchreibe 1.\n%s Mal.\n" % L, None, True)
+        ps["list size"] = (lambda L: "Die Zahlen Liste l ist %s Mal 7." % L, None, True)
+    if ty == "T":
+        ps["operand of verkettet mit"] = (lambda L: d('%s verkettet mit ""' % L), "x", True)
+    return ps
+
+
+def position_literals(ck):
+    """(type, spelling, expected AST item or None if the literal must be rejected, printed bytes)"""
+    out = []
+
+    def z(sp):
+        neg = sp.startswith("-")
+        v = int(sp)
+        if -2**63 <= v < 2**63:
+            it = "I:%d" % v if (not neg or v == -2**63) else "-I:%d" % -v
+            out.append(("Z", sp, it, str(v).encode()))
+        else:
+            out.append(("Z", sp, None, None))
+    for sp in ("0", "42", "007", "9223372036854775807", "09223372036854775807", "-1", "-9223372036854775807", "-9223372036854775808", "-09223372036854775808",
+               "9223372036854775808", "9223372036854775809", "-9223372036854775809", "18446744073709551616", "10000000000000000000", "-18446744073709551616",
+               "9" * 25, "-" + "9" * 25, "09223372036854775808"):
+        z(sp)
+    for _ in range(4 if ck.quick else 40):
+        z(str(2**63 + ck.rng.randint(-3, 3) + ck.rng.choice((0, 0, 2**63))))
+        z("-" + str(2**63 + ck.rng.randint(-3, 3)))
+
+    def k(sp):
+        x = float(sp.replace(",", "."))
+        if x in (float("inf"), float("-inf")):
+            out.append(("K", sp, None, None))
+        else:
+            it = ("-F:%016x" % fbits(-x)) if sp.startswith("-") else "F:%016x" % fbits(x)
+            out.append(("K", sp, it, ("%.16g" % x).encode()))
+    for sp in ("0,1", "1,5", "-2,675", "17976931348623157" + "0" * 292 + ",0", "0," + "0" * 400 + "1", "1" + "0" * 309 + ",0", "-1" + "0" * 309 + ",0", "9" * 400 + ",9",
+               "17976931348623158" + "0" * 292 + ",0", "9007199254740993,0"):
+        k(sp)
+    for body, ok in (("a", 1), ("ä", 1), ("\U0001d11e", 1), ("\\n", 1), ("\\'", 1), ("\\\\", 1), ('"', 1), ("\\x", 0), ("ab", 0), ("", 0), ('\\"', 0)):
+        dn = spec_denote(body, "'") if ok else None
+        out.append(("B", "'%s'" % body, "C:%d" % ord(dn) if ok else None, dn.encode() if ok else None))
+    for body, ok in (("a\\nb", 1), ('\\"', 1), ("ä\U0001d11e", 1), ("", 1), ("\\\\n", 1), ("'", 1), ("a\\tb\\\\", 1), ("a\\xb", 0), ("\\'", 0), ("a\\ä", 0)):
+        dn = spec_denote(body, '"') if ok else None
+        out.append(("T", '"%s"' % body, "S:" + hx(dn) if ok else None, dn.encode() if ok else None))
+    return out
+
+
+def leg_positions(ck, b, T, stats):
+    lits = position_literals(ck)
+    cases = []   # (type, position, spelling, expected item, printed, source, print var, visible)
+    for ty, sp, it, pr in lits:
+        for name, (mk, var, vis) in positions(ty).items():
+            cases.append((ty, name, sp, it, pr, prelude(ty) + mk(sp) + "\n", var, vis))
+    outs = T.whole(["W " + hx(c[5]) for c in cases])
+    ck.count(len(cases))
+    npos = {ty: len(positions(ty)) for ty in TY}
+    stats["positions"] = dict(cases=len(cases), literals=len(lits), positions_per_type=npos, accepted=sum(1 for c in cases if c[3]), rejected=sum(1 for c in cases if not c[3]))
+    kind = {"Z": "int", "K": "decimal", "T": "text", "B": "char"}
+    for (ty, name, sp, it, pr, src, var, vis), ol in zip(cases, outs):
+        f = ol.split()
+        short = sp if len(sp) < 50 else sp[:24] + "...(%d chars)" % len(sp)
+        rep = dict(source=src, source_hex=hx(src), position=name, literal=sp, implementation=ol[:400], how="litx: W <hex> (DDPPATH=<repo>/lib/stdlib): '#errors faulty codes literal-nodes'")
+        if len(f) < 4 or f[1] in ("PANIC", "ERR"):
+            viol(ck, "position-fail", "parser fails on %s literal %s as %s" % (kind[ty], short, name), ol[:300], rep)
+            continue
+        n, faulty, items = int(f[1]), f[2] == "1", f[4:]
+        if it is None:
+            if n == 0 or not faulty:
+                viol(ck, "position-accept-" + ty, "%s literal %s accepted as %s" % (kind[ty], short, name),
+                     "the literal cannot be read (out of range / unknown escape) but as %s it gives %d error diagnostics, faulty=%s, literal nodes %s" % (name, n, faulty, items[:6]), rep)
+        else:
+            if n != 0 or faulty or (vis and it not in items):
+                viol(ck, "position-value-" + ty, "%s literal %s wrong as %s" % (kind[ty], short, name),
+                     "as %s: %d error diagnostics, faulty=%s, literal nodes %s; expected the node %s and no diagnostic" % (name, n, faulty, items[:8], it), rep)
+        ck.nontrivial(("pos", name, sp))
+    # compiled: rejected literals must not compile, accepted ones must print their value (positions that expose it)
+    ok, lg = b.ensure_native()
+    if not ok:
+        return
+    sd = vlib.scratch()
+    rej = [c for c in cases if c[3] is None and c[2] in (("9223372036854775808", "-9223372036854775809", "1" + "0" * 309 + ",0") if ck.quick else
+                                                         ("9223372036854775808", "-9223372036854775809", "1" + "0" * 309 + ",0", "'\\x'", '"a\\xb"', "18446744073709551616"))]
+    acc = [c for c in cases if c[3] is not None and c[6] is not None and len(c[2]) < 40]
+    if ck.quick:
+        acc = [c for c in acc if c[2] in ("9223372036854775807", "-9223372036854775808", "-2,675", "'\\n'", '"a\\nb"')]
+
+    def comp(i_c):
+        i, c = i_c
+        p = os.path.join(sd, "q%d.ddp" % i)
+        src = c[5] + ("Schreibe x.\n" if c[6] == "x" else "")
+        try:
+            open(p, "w", encoding="utf-8", newline="").write(src)
+            r = b.compile(p, os.path.join(sd, "q%d" % i))
+            if r["stage"] != "ok":
+                return ("compile", r["stage"], r["out"][-300:])
+            rc, out, err = b.run(os.path.join(sd, "q%d" % i))
+            return ("ran", rc, out)
+        except OSError as e:
+            raise InfraError("cannot compile/run programs: %s" % e)
+    res = vlib.pmap(comp, list(enumerate(rej + acc)))
+    ck.count(len(res))
+    stats["positions"]["compiled"] = dict(rejected=len(rej), accepted=len(acc))
+    for c, r in zip(rej + acc, res):
+        ty, name, sp, it, pr, src, var, vis = c
+        short = sp if len(sp) < 50 else sp[:24] + "...(%d chars)" % len(sp)
+        full = src + ("Schreibe x.\n" if var == "x" else "")
+        if it is None:
+            if not (r[0] == "compile" and r[1] == "kddp"):
+                viol(ck, "position-compiled-accept", "%s literal %s compiles as %s" % (kind[ty], short, name),
+                     "kddp must reject the program, got %s" % (r,), dict(source=full, position=name, literal=sp, got=str(r)[:400], how="Build().compile(src): kddp must fail"))
+        else:
+            if not (r[0] == "ran" and r[1] == 0 and r[2] == pr):
+                viol(ck, "position-compiled-value", "compiled %s literal %s prints wrongly as %s" % (kind[ty], short, name),
+                     "prints %s, the written value is %r" % (r, pr), dict(source=full, position=name, literal=sp, expected_stdout_hex=pr.hex(), got=str(r)[:400], how="Build().compile(src) + run, compare stdout"))
+
+
 # ---- end to end: compiled programs ------------------------------------------------------------------
 def leg_e2e(ck, b, texts, stats, corpus=()):
     ok, lg = b.ensure_native()
@@ -855,6 +1035,8 @@ def main():
     leg_floats(ck, T, stats)
     lap("floats")
     try:
+        leg_positions(ck, b, T, stats)
+        lap("positions")
         leg_e2e(ck, b, texts, stats, corpus)
     except InfraError as e:
         # not evidence about the property: the leg is reported as not run, the verdict comes from the other legs
